@@ -588,6 +588,20 @@ def prepare_cases(ctx):
                 dd = dict(desc)
                 dd['class'] = 'c07-fn-raw-vs-declared'
                 ctx.violation(f'declaring the normalised matrix gave another prepared query: {diff}', dd)
+        if c['decl'] == 'raw' and np.dtype(c['dt']) in (np.dtype(np.float64), np.dtype(np.int64)):
+            # integer counts times a positive INTEGER factor per cell: k*x and k*S are exact in binary64 (guarded
+            # below), IEEE division is correctly rounded, so (k*x)/(k*S) is the same double as x/S: bitwise
+            facs = [rng.choice([2, 3, 5, 7, 10, 12, 1000, 12345]) for _ in range(nrow)]
+            if all(f * sum(abs(x) for x in row) < 2 ** 53 for f, row in zip(facs, c['rows'])):
+                ctx.dist('function_relation', 'scale-integer')
+                scaled = c['arr'] * np.array(facs, dtype=c['dt']).reshape(nrow, 1)
+                o5 = real_prepare(ctx, f'fs{k}', c['tt'], c['parents'], qnames, refnames, c['lookup'], scaled, 'raw',
+                                  c['enc'], c['chunk'])
+                diff = same_prepared(obs, o5)
+                if diff:
+                    dd = dict(desc)
+                    dd.update({'class': 'c07-fn-scale-integer', 'factors': facs})
+                    ctx.violation(f'multiplying each raw cell by a positive integer changed the prepared query: {diff}', dd)
         if c['decl'] == 'log2CPM':
             ctx.dist('function_relation', 'extra-genes')
             used = set(g for lst in c['lists'] for g in lst)
@@ -627,7 +641,7 @@ TIE_RULE = (
     'log2cpm_stream); write_query_markers_to_h5 + is_data_ge_zero + AnnDataRowIterator + the CellByGeneMatrix lines of '
     'run_type_assignment_on_h5ad_cpu + assemble_query_data vs marker_cache / has_negative / prepare_query on random trees (<=3 '
     'levels; dense/csr/csc; chunked), each followed by function-level BITWISE relations on the implementation (gene permutation, '
-    'raw vs declared-normalised, extra genes).  non-trivial = cpm row with >=2 genes and positive sum / operation sequence that '
+    'raw vs declared-normalised, extra genes, integer counts times a positive integer per cell).  non-trivial = cpm row with >=2 genes and positive sum / operation sequence that '
     'normalises and down-selects or trips the guard / prepare case with >=2 parents and a parent with >=2 markers.  ')
 
 
@@ -657,6 +671,19 @@ def paired_runs(ctx):
                 'factor); (e) one negative raw value => the run is rejected; non-trivial = a pair of runs on a tree with a '
                 'real choice')
     ctx.assumptions += ['integer counts are used so that row sums are exact in binary64 and permutation is bitwise-neutral']
+    ctx.assumptions += [
+        'scale relation: the Coq theorems (c07_scale_invariant, c07_scale_invariant_rational(_matrix), *_vote) are over integer '
+        'raw counts (Z) and integer factors, or a rational factor b/a between two integer matrices; the real code takes any '
+        'numeric dtype.  Checked BITWISE: integer raw counts times a positive integer per cell (function level, float64/int64, '
+        'products below 2^53) and times a power of two per cell (paired runs, any bootstrap factor).  For a non-integer '
+        'factor (paired runs use 0.1, 7.5, 1e-3; measured separately: 0.3, 1.7) or non-integer raw values, float rounding '
+        'changes log2CPM in the last bits (measured on CellByGeneMatrix.to_log2CPM_in_place: max |delta| 3.6e-15, relative '
+        '2.2e-16; about 70% of 3-cell test matrices differ in at least one bit), which the property (a statement about the MAPPING '
+        'under a change of count scale, quantified at bootstrap factor 1 for the relations that perturb floating-point '
+        'values) does not forbid and this check does not claim to be bitwise: those pairs are compared at bootstrap '
+        'factor 1 with tolerance 1e-9 on the reported numbers and the same assignments, a flipped near-tie vote being '
+        'excused and counted (near_ties_excused); non-integer RAW values are not generated',
+    ]
     n = ctx.n(10, 150)
     for k in range(n):
         sc = pipeline.gen_scenario(rng, max_levels=4, max_leaves=8, n_cells=rng.randrange(2, 8))
